@@ -7,6 +7,8 @@ import M3d.Lemmas.C17Svd2
 import M3d.Lemmas.C17Vec
 import M3d.Lemmas.C17PolyMul
 import M3d.Lemmas.C17BiCG
+import M3d.Lemmas.C17Lsq
+import Mathlib.Algebra.Order.Ring.Basic
 import M3d.Gen.Binomial
 /-!
 # C17 — numerical and curve kernels satisfy their defining equations
@@ -1302,5 +1304,252 @@ example :
     s1.x = [8/9, 17/18] ∧ s1.r = [2/9, 2/9] ∧ M3d.BiCG.vsub [2, 4] (op s1.x) = [2/9, 2/9] ∧ s1.term = false ∧
       s2.x = [1, 1] ∧ s2.term = true ∧ op s2.x = [2, 4] := by
   decide +kernel
+
+/-! ## Round 6: `LeastSquaresReg3` / `LeastSquares3` (`numerical/least_squares.go`) and the cubic branch of
+`IterRealRoots` on cubics with `b² = 3ac`
+
+Model `M3d/Model/Lsq.lean`: the assembly loop of the normal equations, the three diagonal updates by `lambda`, the
+eigenvalue floor and the final product are modelled as written; `symEigDecomp` (cubic formula through `cmplx.Pow`) is a
+function parameter `eig`, constrained only by its documented contract `m = v·s·vᵀ` with `v` orthogonal, `s` diagonal. -/
+
+section Lsq
+open M3d.Num.Lsq
+variable [LinearOrder K] [IsStrictOrderedRing K]
+
+/-- **What `LeastSquaresReg3` hands to the eigen-decomposition**: after the loop over the rows and the three updates
+`leftSide[0] += lambda; leftSide[4] += lambda; leftSide[8] += lambda`, `leftSide = AᵀA + λ·I` entry by entry (row-major,
+the penalty on the DIAGONAL `0, 4, 8` and nowhere else), and `rightSide = Aᵀb`.  In particular `leftSide` is symmetric -
+the precondition of `symEigDecomp`. -/
+theorem lsq_normal_matrix (rows : List (V3 K × K)) (lam : K) :
+    normal rows lam = (addDiag (gram rows) lam, rhs rows) ∧
+    (normal rows lam).1.m0 = sumBy (fun r => r.1.x * r.1.x) rows + lam ∧
+    (normal rows lam).1.m4 = sumBy (fun r => r.1.y * r.1.y) rows + lam ∧
+    (normal rows lam).1.m8 = sumBy (fun r => r.1.z * r.1.z) rows + lam ∧
+    (normal rows lam).1.m1 = sumBy (fun r => r.1.y * r.1.x) rows ∧
+    (normal rows lam).1.m3 = (normal rows lam).1.m1 ∧ (normal rows lam).1.m6 = (normal rows lam).1.m2 ∧
+    (normal rows lam).1.m7 = (normal rows lam).1.m5 := by
+  rw [normal_eq]
+  refine ⟨rfl, rfl, rfl, rfl, rfl, ?_, ?_, ?_⟩ <;>
+    (simp only [addDiag, gram, sumBy]
+     exact congrArg List.sum (List.map_congr_left fun r _ => by ring))
+
+/-- **`LeastSquaresReg3` returns a solution of the regularised normal equations** `(AᵀA + λ·I)·x = Aᵀb` whenever the
+eigen-decomposition it calls keeps its contract on the normal matrix (`vᵀv = 1`, `v·s·vᵀ = leftSide`, `s` diagonal) and every
+eigenvalue is above the floor `epsilon ≥ 0`.  Any number of rows (under- and over-determined), any `lambda`. -/
+theorem lsq_reg3_normal_equations (eig : M3 K → M3 K × M3 K) (rows : List (V3 K × K)) (lam eps : K)
+    (horth : (eig (normal rows lam).1).2.transpose.mul (eig (normal rows lam).1).2 = M3.one)
+    (hrec : ((eig (normal rows lam).1).2.mul (eig (normal rows lam).1).1).mul (eig (normal rows lam).1).2.transpose
+      = (normal rows lam).1)
+    (hd : IsDiag (eig (normal rows lam).1).1) (h0 : 0 ≤ eps)
+    (h : eps < (eig (normal rows lam).1).1.m0 ∧ eps < (eig (normal rows lam).1).1.m4 ∧
+      eps < (eig (normal rows lam).1).1.m8) :
+    (addDiag (gram rows) lam).mulColumn (lsqReg3 eig rows lam eps) = rhs rows := by
+  have := solveWith_solves _ _ _ (normal rows lam).2 eps horth hrec hd h0 h
+  simp only [lsqReg3]
+  rw [normal_eq] at this ⊢
+  exact this
+
+/-- **Ridge regression never needs a conditioning hypothesis**: for a penalty above the floor, `0 ≤ epsilon < lambda`,
+every eigenvalue of `AᵀA + λ·I` that an orthogonal decomposition reports is `≥ lambda > epsilon`, so the floor never cuts
+and the returned vector satisfies `(AᵀA + λ·I)·x = Aᵀb` for EVERY system - rank-deficient, under-determined and empty ones
+included (`model3d.DualContouring` with `L2Penalty > 0` relies on this for flat and edge-like cells). -/
+theorem lsq_reg3_ridge (eig : M3 K → M3 K × M3 K) (rows : List (V3 K × K)) (lam eps : K)
+    (horth : (eig (normal rows lam).1).2.transpose.mul (eig (normal rows lam).1).2 = M3.one)
+    (hrec : ((eig (normal rows lam).1).2.mul (eig (normal rows lam).1).1).mul (eig (normal rows lam).1).2.transpose
+      = (normal rows lam).1)
+    (hd : IsDiag (eig (normal rows lam).1).1) (h0 : 0 ≤ eps) (hl : eps < lam) :
+    (addDiag (gram rows) lam).mulColumn (lsqReg3 eig rows lam eps) = rhs rows := by
+  have hn := normal_eq rows lam
+  have hge := eig_ge_lambda rows lam (eig (normal rows lam).1).1 (eig (normal rows lam).1).2 horth
+    (by rw [hrec, hn])
+  exact lsq_reg3_normal_equations eig rows lam eps horth hrec hd h0
+    ⟨lt_of_lt_of_le hl hge.1, lt_of_lt_of_le hl hge.2.1, lt_of_lt_of_le hl hge.2.2⟩
+
+/-- **Eigenvalues at or below the floor (truncated pseudo-inverse)**, any `lambda`, any `epsilon ≥ 0`, any system: in the
+eigenbasis the `eig` contract provides (`vᵀ` has the eigenvectors as rows), along every eigenvector whose eigenvalue is ABOVE
+the floor the returned `x` satisfies the normal equations (`(vᵀ·N·x)ᵢ = (vᵀ·Aᵀb)ᵢ`), and along every eigenvector whose eigenvalue
+is cut `x` has no component (`(vᵀ·x)ᵢ = 0`) - the minimum-norm least-squares solution on the kept subspace, which is what the
+`epsilon` argument is documented to do ("a lower bound for singular values in the pseudoinverse"). -/
+theorem lsq_reg3_truncated (eig : M3 K → M3 K × M3 K) (rows : List (V3 K × K)) (lam eps : K)
+    (horth : (eig (normal rows lam).1).2.transpose.mul (eig (normal rows lam).1).2 = M3.one)
+    (hrec : ((eig (normal rows lam).1).2.mul (eig (normal rows lam).1).1).mul (eig (normal rows lam).1).2.transpose
+      = (normal rows lam).1)
+    (hd : IsDiag (eig (normal rows lam).1).1) (h0 : 0 ≤ eps) :
+    let n := normal rows lam
+    let s := (eig n.1).1
+    let vt := (eig n.1).2.transpose
+    let x := lsqReg3 eig rows lam eps
+    ((eps < s.m0 → (vt.mulColumn (n.1.mulColumn x)).x = (vt.mulColumn n.2).x) ∧ (¬ eps < s.m0 → (vt.mulColumn x).x = 0)) ∧
+    ((eps < s.m4 → (vt.mulColumn (n.1.mulColumn x)).y = (vt.mulColumn n.2).y) ∧ (¬ eps < s.m4 → (vt.mulColumn x).y = 0)) ∧
+    ((eps < s.m8 → (vt.mulColumn (n.1.mulColumn x)).z = (vt.mulColumn n.2).z) ∧ (¬ eps < s.m8 → (vt.mulColumn x).z = 0)) := by
+  intro n s vt x
+  obtain ⟨c1, c2⟩ := solveWith_coords s (eig n.1).2 n.1 n.2 eps horth hrec hd
+  have hx : x = solveWith s (eig n.1).2 eps n.2 := rfl
+  rw [← hx] at c1 c2
+  have k1 := congrArg V3.x c1; have k2 := congrArg V3.x c2
+  have k3 := congrArg V3.y c1; have k4 := congrArg V3.y c2
+  have k5 := congrArg V3.z c1; have k6 := congrArg V3.z c2
+  simp only at k1 k2 k3 k4 k5 k6
+  refine ⟨⟨fun h => ?_, fun h => ?_⟩, ⟨fun h => ?_, fun h => ?_⟩, ⟨fun h => ?_, fun h => ?_⟩⟩
+  · rw [k2, pinvEntry_mul eps _ h0 h, one_mul]
+  · rw [k1, pinvEntry_cut eps _ h, zero_mul]
+  · rw [k4, pinvEntry_mul eps _ h0 h, one_mul]
+  · rw [k3, pinvEntry_cut eps _ h, zero_mul]
+  · rw [k6, pinvEntry_mul eps _ h0 h, one_mul]
+  · rw [k5, pinvEntry_cut eps _ h, zero_mul]
+
+/-- `LeastSquares3` is the `lambda = 0` instance: it solves `AᵀA·x = Aᵀb` when every eigenvalue of `AᵀA` is above the
+floor (the "well-conditioned" hypothesis of the property). -/
+theorem lsq3_normal_equations (eig : M3 K → M3 K × M3 K) (rows : List (V3 K × K)) (eps : K)
+    (horth : (eig (normal rows ((0 : Nat) : K)).1).2.transpose.mul (eig (normal rows ((0 : Nat) : K)).1).2 = M3.one)
+    (hrec : ((eig (normal rows ((0 : Nat) : K)).1).2.mul (eig (normal rows ((0 : Nat) : K)).1).1).mul
+      (eig (normal rows ((0 : Nat) : K)).1).2.transpose = (normal rows ((0 : Nat) : K)).1)
+    (hd : IsDiag (eig (normal rows ((0 : Nat) : K)).1).1) (h0 : 0 ≤ eps)
+    (h : eps < (eig (normal rows ((0 : Nat) : K)).1).1.m0 ∧ eps < (eig (normal rows ((0 : Nat) : K)).1).1.m4 ∧
+      eps < (eig (normal rows ((0 : Nat) : K)).1).1.m8) :
+    (gram rows).mulColumn (lsq3 eig rows eps) = rhs rows := by
+  have := lsq_reg3_normal_equations eig rows ((0 : Nat) : K) eps horth hrec hd h0 h
+  have e : addDiag (gram rows) ((0 : Nat) : K) = gram rows := by
+    simp only [addDiag]; push_cast; simp
+  rw [e] at this
+  exact this
+
+/-- **The penalty is the ridge penalty**: the normal equations of `(A, b, λ)` are those of the plain least-squares problem
+with the three extra rows `√λ·e₁, √λ·e₂, √λ·e₃` and right-hand sides 0, i.e. of `min ‖A·x − b‖² + λ‖x‖²`. -/
+theorem lsq_reg3_is_ridge (rows : List (V3 K × K)) (lam sq : K) (h : sq * sq = lam) :
+    normal (rows ++ ridgeRows sq) ((0 : Nat) : K) = normal rows lam :=
+  normal_ridgeRows rows lam sq h
+
+/-- Non-vacuity (the seeded example C17-14): `A = I`, `b = (1,2,3)`, `λ = 1`: the normal matrix is `2·I` (the penalty sits
+on the diagonal), whose eigen-decomposition is `(2·I, I)`; the answer is `b/(1+λ) = (1/2, 1, 3/2)`, and an under-determined
+one-row system with `λ = 1`. -/
+example :
+    let eig : M3 ℚ → M3 ℚ × M3 ℚ := fun m => (m, M3.one)
+    let rows : List (V3 ℚ × ℚ) := [(⟨1, 0, 0⟩, 1), (⟨0, 1, 0⟩, 2), (⟨0, 0, 1⟩, 3)]
+    (normal rows 1).1 = ⟨2, 0, 0, 0, 2, 0, 0, 0, 2⟩ ∧ lsqReg3 eig rows 1 0 = ⟨1/2, 1, 3/2⟩ ∧
+    (normal [((⟨2, 0, 0⟩ : V3 ℚ), (4 : ℚ))] 1).1 = ⟨5, 0, 0, 0, 1, 0, 0, 0, 1⟩ ∧
+    lsqReg3 eig [((⟨2, 0, 0⟩ : V3 ℚ), (4 : ℚ))] 1 (1/2) = ⟨8/5, 0, 0⟩ := by
+  decide +kernel
+
+end Lsq
+
+section Cubic
+variable [LinearOrder K] [IsStrictOrderedRing K]
+
+/-- **`disc0 = b² − 3ac = 0` does not mean "triple root"** (the cubic branch of `IterRealRoots`).  For a cubic
+`a·x³ + b·x² + c·x + d`, `a ≠ 0`, with `b² = 3ac`:
+* it is `a·(x + b/(3a))³ + disc1/(27a²)` with `disc1 = 2b³ − 9abc + 27a²d` - a shifted pure cubic;
+* the inflection point `−b/(3a)` is a root iff `disc1 = 0` (only then is it the triple root);
+* it has at most one real root (`x ↦ x³` is injective on an ordered field), and if `w³ = −disc1/(27a³)` then
+  `−b/(3a) + w` is that root.
+(The closed form in the source computes `w` as `C/(−3a)` with `C = disc1^(1/3)` through `cmplx.Pow`; that step is libm and is
+validated by `realroots.q` / `resid.v roots` on exactly these cubics, not proved.) -/
+theorem cubic_disc0_zero_roots (a b c d : K) (ha : a ≠ 0) (h0 : b * b - 3 * a * c = 0) :
+    let disc1 := 2 * b * b * b - 9 * a * b * c + 27 * a * a * d
+    (∀ x, Poly.eval [d, c, b, a] x = a * (x + b / (3 * a)) ^ 3 + disc1 / (27 * a ^ 2)) ∧
+    (Poly.eval [d, c, b, a] (-b / (3 * a)) = 0 ↔ disc1 = 0) ∧
+    (∀ x y, Poly.eval [d, c, b, a] x = 0 → Poly.eval [d, c, b, a] y = 0 → x = y) ∧
+    (∀ w, w ^ 3 = -disc1 / (27 * a ^ 3) → Poly.eval [d, c, b, a] (-b / (3 * a) + w) = 0) := by
+  intro disc1
+  have h3 : (3 : K) ≠ 0 := by norm_num
+  have hform : ∀ x, Poly.eval [d, c, b, a] x = a * (x + b / (3 * a)) ^ 3 + disc1 / (27 * a ^ 2) := by
+    intro x
+    have hb : b = 3 * a * (b / (3 * a)) := by field_simp
+    generalize b / (3 * a) = t at hb ⊢
+    have hc : c = 3 * a * t ^ 2 := by
+      have e : 3 * a * (c - 3 * a * t ^ 2) = 0 := by
+        linear_combination (-1) * h0 + (b + 3 * a * t) * hb
+      have := (mul_eq_zero.mp e).resolve_left (mul_ne_zero h3 ha)
+      linear_combination this
+    have hd1 : disc1 / (27 * a ^ 2) = d - a * t ^ 3 := by
+      rw [div_eq_iff (by positivity)]
+      simp only [disc1]
+      linear_combination (-9 * a * b) * hc + (2 * b ^ 2 + 6 * a * t * b - 9 * a ^ 2 * t ^ 2) * hb
+    rw [hd1]
+    simp only [Poly.eval_eq_spec, Poly.evalSpec_cons, Poly.evalSpec_nil]
+    linear_combination x * hc + x ^ 2 * hb
+  refine ⟨hform, ?_, ?_, ?_⟩
+  · rw [hform]
+    have : -b / (3 * a) + b / (3 * a) = 0 := by ring
+    rw [this]
+    constructor
+    · intro h
+      have h' : disc1 / (27 * a ^ 2) = 0 := by linear_combination h
+      have hne : (27 * a ^ 2 : K) ≠ 0 := by positivity
+      exact (div_eq_zero_iff.mp h').resolve_right hne
+    · intro h; rw [h]; ring
+  · intro x y hx hy
+    rw [hform] at hx hy
+    have hcube : (x + b / (3 * a)) ^ 3 = (y + b / (3 * a)) ^ 3 := by
+      have : a * ((x + b / (3 * a)) ^ 3 - (y + b / (3 * a)) ^ 3) = 0 := by linear_combination hx - hy
+      have := (mul_eq_zero.mp this).resolve_left ha
+      linear_combination this
+    have := (Odd.pow_inj (by decide : Odd 3)).mp hcube
+    linear_combination this
+  · intro w hw
+    rw [hform]
+    have : -b / (3 * a) + w + b / (3 * a) = w := by ring
+    rw [this, hw]
+    field_simp
+    ring
+
+/-- **The cubics the generator draws on purpose**: `p = a·((x − m)³ − w³)` as the coefficient list the code receives.
+Its coefficients satisfy `b² = 3ac` EXACTLY (the branch condition `disc0 == 0`), `disc1 = −27a³w³` (non-zero unless
+`w = 0`), it factors as `a·(x − (m+w))·((x − (m − w/2))² + 3w²/4)` - the form `lead·(x − r)·((x − h)² + k)` in which the
+kind `realroots.q` passes it - and its only real root is `m + w` (NOT the inflection point `m`, unless `w = 0`). -/
+theorem cubic_shifted_roots (a m w : K) (ha : a ≠ 0) :
+    let p := [a * (-(m ^ 3) - w ^ 3), 3 * a * m ^ 2, -(3 * a * m), a]
+    ((-(3 * a * m)) * (-(3 * a * m)) - 3 * a * (3 * a * m ^ 2) = 0) ∧
+    (2 * (-(3 * a * m)) * (-(3 * a * m)) * (-(3 * a * m)) - 9 * a * (-(3 * a * m)) * (3 * a * m ^ 2)
+        + 27 * a * a * (a * (-(m ^ 3) - w ^ 3)) = -(27 * a ^ 3 * w ^ 3)) ∧
+    (∀ x, Poly.eval p x = a * (x - (m + w)) * ((x - (m - w / 2)) ^ 2 + 3 * w ^ 2 / 4)) ∧
+    (∀ x, Poly.eval p x = 0 ↔ x = m + w) := by
+  intro p
+  have hform : ∀ x, Poly.eval p x = a * ((x - m) ^ 3 - w ^ 3) := by
+    intro x
+    simp only [p, Poly.eval_eq_spec, Poly.evalSpec_cons, Poly.evalSpec_nil]
+    ring
+  refine ⟨by ring, by ring, fun x => by rw [hform]; ring, fun x => ?_⟩
+  rw [hform]
+  constructor
+  · intro h
+    have h1 := (mul_eq_zero.mp h).resolve_left ha
+    have hcube : (x - m) ^ 3 = w ^ 3 := by linear_combination h1
+    have := (Odd.pow_inj (by decide : Odd 3)).mp hcube
+    linear_combination this
+  · intro h; rw [h]; ring
+
+/-- A quartic whose derivative is such a cubic (`x⁴ + p·x + q`, shifted): with real roots `r₁ < r₂` and
+`h = −(r₁+r₂)/2`, `k = 3h² − r₁r₂`, the product `(x − r₁)(x − r₂)((x − h)² + k)` has NO cubic and NO quadratic term, so its
+derivative `4x³ + p` has `b = c = 0`, `disc0 = 0`; for `k > 0` its real roots are exactly `r₁, r₂` (the form in which
+`realroots.q` passes it). -/
+theorem quartic_pure_cubic_derivative (r1 r2 : K) (hk : 0 < 3 * ((r1 + r2) / 2) ^ 2 - r1 * r2) :
+    let h := -(r1 + r2) / 2
+    let k := 3 * h ^ 2 - r1 * r2
+    (∀ x, (x - r1) * (x - r2) * ((x - h) ^ 2 + k) =
+        x ^ 4 + (-(r1 + r2) * (h ^ 2 + k) - 2 * h * (r1 * r2)) * x + r1 * r2 * (h ^ 2 + k)) ∧
+    (∀ x, (x - r1) * (x - r2) * ((x - h) ^ 2 + k) = 0 ↔ x = r1 ∨ x = r2) := by
+  intro h k
+  have hk' : 0 < k := by
+    have : k = 3 * ((r1 + r2) / 2) ^ 2 - r1 * r2 := by simp only [k, h]; ring
+    rw [this]; exact hk
+  refine ⟨fun x => by simp only [k, h]; ring, fun x => ?_⟩
+  have hq : (x - h) ^ 2 + k ≠ 0 := by have := sq_nonneg (x - h); intro e; linarith
+  constructor
+  · intro e
+    rcases mul_eq_zero.mp e with e | e
+    · rcases mul_eq_zero.mp e with e | e
+      · left; linear_combination e
+      · right; linear_combination e
+    · exact absurd e hq
+  · rintro (e | e) <;> (rw [e]; ring)
+
+/-- Non-vacuity: `x³ − 8` and `(x−1)³ − 8 = x³ − 3x² + 3x − 9` (C17-15's examples) have `b² = 3ac`, are not triple roots,
+and their real roots are 2 and 3 (not the inflection points 0 and 1). -/
+example : Poly.eval [(-8 : ℚ), 0, 0, 1] 2 = 0 ∧ Poly.eval [(-8 : ℚ), 0, 0, 1] 0 ≠ 0 ∧
+    Poly.eval [(-9 : ℚ), 3, -3, 1] 3 = 0 ∧ Poly.eval [(-9 : ℚ), 3, -3, 1] 1 ≠ 0 ∧
+    ((-3 : ℚ) * (-3) - 3 * 1 * 3 = 0) := by decide +kernel
+
+end Cubic
 
 end M3d.C17
